@@ -436,12 +436,16 @@ class BasinProxyFeature(np.lib.mixins.NDArrayOperatorsMixin):
         return np.array(self._cache, copy=copy)
 
     def __getattr__(self, item):
-        if item in [
-            "dtype",
-            "shape",
-            "size",
-        ]:
-            return getattr(self.feat_obj, item)
+        if item == "dtype":
+            return self.feat_obj.dtype
+        elif item == "shape":
+            # the first axis enumerates the mapped events
+            return (len(self.basinmap),) + tuple(self.feat_obj.shape[1:])
+        elif item == "size":
+            size = len(self.basinmap)
+            for dim in self.feat_obj.shape[1:]:
+                size *= dim
+            return size
         else:
             raise AttributeError(
                 f"BasinProxyFeature does not implement {item}")
